@@ -241,6 +241,44 @@ def compaction_case(rng):
     return {"k": rng.choice([0, 2]), "ops": ops, "bodies": bodies}
 
 
+def compaction_reentrant_case(rng):
+    """compaction (> 50 outstanding cancellations, more than half the queue) at the end of an iteration in which a
+    RUNNING call schedules a call and cancels it at once: the cancelled call sits in the staging list when
+    _cancellations is reset to 0, the next insertion drives the counter to -1, one more cancel() brings it back to 0
+    with a cancelled call queued.  getDelayedCalls() is observed after every step."""
+    n = rng.randrange(53, 70)
+    far = rng.choice([[40], [40, 41], [40, 44, 48]])
+    ops = [["later", rng.choice(far)] for _ in range(n)]
+    runner = n                                   # id of the call whose function re-enters the timer API
+    ops.append(["later", 3])
+    extra = rng.randrange(0, 3)                  # other due calls around it
+    for _ in range(extra):
+        ops.append(["later", rng.choice([3, 2])])
+    created = n + 1 + extra
+    if rng.random() < 0.8:
+        ops.append(["run"])                      # move everything into the heap
+    victims = rng.sample(range(n), rng.randrange(50, n))
+    for v in victims:
+        ops.append(["cancel", v])
+    k = rng.randrange(1, 4)                      # calls scheduled and cancelled at once by the running call
+    body = []
+    for j in range(k):
+        body += [["later", rng.choice([0, 1, 50])], ["cancel", created + j]]
+    if rng.random() < 0.5:
+        body.append(["snap"])
+    bodies = [[] for _ in range(runner)] + [body]
+    ops += [["snap"], ["adv", 3], ["run"], ["snap"], ["timeout"], ["snap"]]
+    survivors = [i for i in range(n) if i not in victims]
+    for _ in range(rng.randrange(1, 4)):
+        ops += [["run"], ["snap"]]
+        if survivors:
+            ops += [["cancel", survivors.pop(rng.randrange(len(survivors)))], ["snap"]]
+        if rng.random() < 0.5:
+            ops += [["later", 5], ["snap"]]
+    ops += [["adv", 60], ["run"], ["snap"], ["timeout"]]
+    return {"k": rng.choice([0, 1]), "ops": ops, "bodies": bodies}
+
+
 ALPHABET = [[["later", 0]], [["later", 1]], [["later", 2]], [["adv", 1], ["run"]], [["run"]], [["cancel", 0]],
             [["reset", 1, 1]], [["reset", 0, 0]], [["delay", 0, 1]], [["delay", 1, -1]], [["timeout"]], [["delay", 0, -2]],
             [["reset", 0, 3]]]
@@ -268,6 +306,8 @@ def gen(rng, tier):
         cases.append(rand_case(rng, rng.randrange(5, 40), neg=True))
     for _ in range(12 if tier == "quick" else 120):
         cases.append(compaction_case(rng))
+    for _ in range(15 if tier == "quick" else 200):
+        cases.append(compaction_reentrant_case(rng))
     for _ in range(120 if tier == "quick" else 2500):     # postponed, then pulled back by a negative delay()
         cases.append(pull_case(rng, lambda a: [["adv", a], ["run"], ["timeout"]]))
     return cases
@@ -286,6 +326,7 @@ def corpus():
         {"k": 0, "ops": [["later", 1], ["cancel", 0], ["timeout"], ["later", 1], ["run"], ["adv", 1], ["run"]],
          "bodies": []},
         compaction_fixed(),
+        compaction_reentrant_fixed(),
         # a postponement is outstanding when a negative delay() arrives: 5 + 2 - 3 = 4 (not 5 - 3); in the heap and staged
         {"k": 0, "ops": [["later", 5], ["later", 3], ["run"], ["delay", 0, 2], ["delay", 0, -3], ["snap"], ["adv", 2], ["run"], ["snap"],
                          ["adv", 2], ["run"], ["snap"], ["later", 4], ["reset", 2, 9], ["delay", 2, -6], ["snap"], ["adv", 3], ["run"],
@@ -294,6 +335,15 @@ def corpus():
         {"k": 0, "ops": [["later", 5], ["later", 5], ["later", 5], ["adv", 5], ["run"], ["snap"], ["run"], ["snap"]],
          "bodies": [[["later", 0], ["raise"], ["cancel", 1]], [["raise"]]]},
     ]
+
+
+def compaction_reentrant_fixed():
+    """60 far calls + one due call #60 whose function does callLater(50) and cancels the new call (#61); 52 far calls
+    are cancelled: the iteration that runs #60 ends with compaction while cancelled #61 is still staged"""
+    ops = [["later", 40] for _ in range(60)] + [["later", 3], ["run"]] + [["cancel", i] for i in range(52)]
+    ops += [["snap"], ["adv", 3], ["run"], ["snap"], ["run"], ["snap"], ["cancel", 55], ["snap"], ["timeout"], ["adv", 60], ["run"],
+            ["snap"]]
+    return {"k": 0, "ops": ops, "bodies": [[] for _ in range(60)] + [[["later", 50], ["cancel", 61], ["snap"]]]}
 
 
 def compaction_fixed():
@@ -365,7 +415,7 @@ SPEC = Spec(
          "by snapshots, two iterations and a timeout(); random histories of 5-70 operations with random body tables "
          "(scales 2^0..2^-20, tie-heavy delays, 2^30-size delays); a stream with negative reset()/delay() arguments; a stream that postpones a call and then pulls it back with delay(-b), b >, =, < the outstanding postponement; "
          "compaction histories: 52-74 calls on 1-29 distinct times, 49..n of them cancelled (> 50 and more than half "
-         "the heap triggers filter + heapify), followed by resets/delays and iterations that expose the heap order; "
+         "the heap triggers filter + heapify), followed by resets/delays and iterations that expose the heap order; compaction at the end of an iteration in which a running call schedules and at once cancels calls (cancelled calls staged while the counter is reset), with getDelayedCalls() after every step; "
          "non-trivial = at least one call ran; distinct by (case, observation)",
     trusted=["hand-written model coq/C08/Model.v + coq/Lib/TimersHeap.v, TimersCall.v (tied by this correspondence run "
              "only); the heap algorithms are written with swaps where heapq moves a hole",
